@@ -141,7 +141,7 @@ def classify(diag, lines):
 def verify_unit(vc_path, tier='quick', with_vacuity=True, rlimit=None, keep=True):
     try:
         u = Unit(vc_path)
-        em = Emitter(u)
+        em = Emitter(u, tier=tier)
         text = em.build()
     except ExtractError as ex:
         raise InfraError('extraction failed for %s: %s' % (vc_path, ex))
@@ -179,9 +179,9 @@ def verify_unit(vc_path, tier='quick', with_vacuity=True, rlimit=None, keep=True
             'text': 'exec-mode safety of the extracted body: no overflow, no out-of-bounds, panic!/assert! unreachable, every callee precondition holds',
             'fn': fn['id']}
 
-    extra = []
-    if rlimit:
-        extra += ['--rlimit', str(rlimit)]
+    # generous default resource limit: false obligations fail crisply (opaque arithmetic), so headroom only
+    # protects true obligations from solver variance
+    extra = ['--rlimit', str(rlimit or 60)]
     vfut = None
     if with_vacuity:
         import concurrent.futures as _cf
